@@ -358,6 +358,11 @@ fn run_cache_node(seed: u64, n: u64, out: &mut Out, public: bool) -> (u64, Vec<V
             4 => GetKind::ClosestNodes,
             _ => GetKind::Immutable,
         };
+        // every 120 lookups six quiet minutes pass: the tokens of every cached lookup go stale (5 minutes), ping rounds and the
+        // refresh of the node's own id run; the hot targets are looked up again on both sides of such a pause
+        if i % 120 == 119 {
+            sim.run_for(6 * 60_000);
+        }
         let mut call = sim.call_get(c, kind, t, "l");
         sim.poke(c);
         sim.run_calls(&mut [&mut call], 20_000);
